@@ -112,13 +112,14 @@ Definition item_first_line (mk : marker) (pad : nat) (inner : list sline) : str 
   | _ => []
   end.
 
-(* a continuation line of a paragraph: a plain line that can be neither a setext underline nor a list item, without tabs *)
-Definition cont_okb (l : str) : bool := plain_line_b l && cont_first (hd 0 l) && negb (mem 9 l).
+(* a continuation line of a paragraph: a line that starts no block, can be neither a setext underline nor a list item, without tabs *)
+Definition cont_okb (l : str) : bool := block_line_b l && cont_first (hd 0 l) && negb (mem 9 l).
 
 Fixpoint wf_b (t : ftree) : bool :=
   match t with
-  | FPara c body more => plain_line_b (c :: body) && negb (mem 9 (c :: body)) &&
-                         nomatch fl_block_token_ListItem_pattern re_block_token_ListItem_pattern c && forallb cont_okb more
+  | FPara c body more => block_line_b (c :: body) && negb (mem 9 (c :: body)) &&
+                         nomatch fl_block_token_ListItem_pattern re_block_token_ListItem_pattern c && forallb cont_okb more &&
+                         inert_para_b ((c :: body) :: more)       (* delimiters allowed, as long as none can open or close anything *)
   | FFence ch n content =>
     ((ch =? 96) || (ch =? 126)) && Nat.leb 3 n && forallb sline_okb content && forallb notab_b content &&
     forallb (fun l => match l with SBlank => true | SLine _ c _ => negb (c =? ch) end) content
@@ -318,20 +319,23 @@ Section Main.
     cbn [tokenize_block length dispatch_loop]. rewrite T. reflexivity.
   Qed.
 
-  Lemma cont_ok_reflect l : cont_okb l = true -> cont_line l /\ mem 9 l = false.
+  Lemma cont_ok_reflect l : cont_okb l = true -> bl_cont l /\ mem 9 l = false.
   Proof.
-    unfold cont_okb. intros H. repeat rewrite andb_true_iff in H. destruct H as [[H1 H2] H3]. apply plain_line_reflect in H1. apply negb_true_iff in H3.
+    unfold cont_okb. intros H. repeat rewrite andb_true_iff in H. destruct H as [[H1 H2] H3]. apply block_line_b_spec in H1. apply negb_true_iff in H3.
     split; [split; assumption|exact H3].
   Qed.
 
   Lemma wf_para c body more : wf_b (FPara c body more) = true ->
-    plain_line (c :: body) /\ nomatch fl_block_token_ListItem_pattern re_block_token_ListItem_pattern c = true /\ Forall cont_line more.
+    block_line (c :: body) /\ nomatch fl_block_token_ListItem_pattern re_block_token_ListItem_pattern c = true /\ Forall bl_cont more.
   Proof.
-    cbn [wf_b]. intros H. repeat rewrite andb_true_iff in H. destruct H as [[[H1 _] H2] H3]. apply plain_line_reflect in H1.
+    cbn [wf_b]. intros H. repeat rewrite andb_true_iff in H. destruct H as [[[[H1 _] H2] H3] _]. apply block_line_b_spec in H1.
     split; [exact H1|]. split; [exact H2|]. apply Forall_forall. intros l Hin. rewrite forallb_forall in H3. apply (cont_ok_reflect l (H3 l Hin)).
   Qed.
 
-  Lemma para_text c body more : Forall cont_line more -> text_of (spell (FPara c body more)) = nl_lines ((c :: body) :: more).
+  Lemma wf_para_inert c body more : wf_b (FPara c body more) = true -> inert_para_b ((c :: body) :: more) = true.
+  Proof. cbn [wf_b]. intros H. repeat rewrite andb_true_iff in H. destruct H as [_ H]. exact H. Qed.
+
+  Lemma para_text c body more : Forall bl_cont more -> text_of (spell (FPara c body more)) = nl_lines ((c :: body) :: more).
   Proof.
     intros H. cbn [spell text_of map render_line nl_lines]. unfold line_of. cbn [repeat app]. f_equal. rewrite map_map. apply map_ext_in.
     intros l Hin. rewrite Forall_forall in H. destruct (H l Hin) as [(_ & _ & Hne & _) _]. destruct l; [contradiction|reflexivity].
@@ -344,9 +348,9 @@ Section Main.
     try_types types rec types (text_of (spell (FPara c body more))) ln st = Some (pre_of md ln (FPara c body more), S (length more), st).
   Proof.
     intros Hw. destruct (wf_para c body more Hw) as (PL & _ & Hc). rewrite (para_text c body more Hc), para_pre.
-    pose proof (para_loop_prose types (ps_setext st) more [(c :: body) ++ [10]] 1 Hc) as PLoop. cbn [rev app] in PLoop.
+    pose proof (para_loop_lines types (ps_setext st) more [(c :: body) ++ [10]] 1 Hc) as PLoop. cbn [rev app] in PLoop.
     unfold nl_lines. cbn [map].
-    rewrite (try_types_para_gen types rec (c :: body) _ ln st _ _ PL PLoop types Hp). reflexivity.
+    rewrite (try_types_para_lines types rec (c :: body) _ ln st _ _ PL PLoop types Hp). reflexivity.
   Qed.
 
   Lemma tokenize_S f lines ln st :
@@ -357,7 +361,7 @@ Section Main.
     tokenize_block types (S f) (text_of (spell (FPara c body more))) ln st = ([pre_of md ln (FPara c body more)], false, st).
   Proof.
     intros Hw. destruct (wf_para c body more Hw) as (PL & _ & Hc). rewrite (para_text c body more Hc), para_pre.
-    apply (prose_block types f (c :: body) more ln st Hp PL Hc).
+    apply (lines_block types f (c :: body) more ln st Hp PL Hc).
   Qed.
 
   Lemma fence_text ch n content : (1 <= n)%nat -> text_of (spell (FFence ch n content)) = fence_block ch n content.
@@ -430,11 +434,12 @@ Section Main.
   Proof.
     intros Hi Hw. destruct t as [c body more|ch n content|ts|mk pad ts|lv hc hb|rc rn|e0 epre ech edbl ew epost]; [| | |discriminate| | |].
     - destruct (wf_para c body more Hw) as (Hw' & Hnm & _).
-      destruct Hw' as (Hpl & Hf1 & _ & _). cbn [hd] in Hf1.
+      destruct Hw' as (Hf1 & _ & _ & _). cbn [hd] in Hf1.
       assert (Hc : first_ok c = true).
       { apply nonspace_first_ok. unfold nonspace. change (cat_match CatSpace c) with (is_space_c c). rewrite (plain_first_not_space c Hf1). reflexivity. }
       assert (Hb : mem 10 body = false).
-      { pose proof (plain_no 10 (c :: body) eq_refl Hpl) as M. unfold mem in M. cbn [existsb] in M. apply orb_false_iff in M. tauto. }
+      { destruct (inert_para_core _ (wf_para_inert c body more Hw)) as (_ & _ & _ & H10). inversion H10 as [|? ? M _]; subst.
+        unfold mem in M. cbn [existsb] in M. apply orb_false_iff in M. tauto. }
       cbn [spell text_of map render_line]. eexists. eexists. split; [reflexivity|]. split.
       + intros p Hp0. apply parse_continuation_short; assumption.
       + unfold parse_marker, line_of. cbn [repeat app]. rewrite rmatch_first by exact Hnm. reflexivity.
@@ -676,15 +681,23 @@ Section Tokens.
   Variable md : bool.
   Hypothesis Hquiet : prose_spans span_types = true.
   Hypothesis Hemph : emph_spans span_types = true.
+  Hypothesis Hinert : inert_spans span_types = true.
+  Hypothesis Hfn : fn = [].       (* the trees of the fragment define no link reference, so that "[b]" in a paragraph is text *)
 
   Lemma build_para c body more ln : wf_b (FPara c body more) = true ->
     build span_types keep fn (pre_of md ln (FPara c body more)) = Some (tok_of md (FPara c body more)).
   Proof.
-    intros Hw. destruct (wf_para c body more Hw) as (PL & _ & Hc). rewrite para_pre. cbn [build tok_of].
-    pose proof (strip_prose (c :: body) more PL Hc) as E.
+    intros Hw. destruct (wf_para c body more Hw) as (PL & _ & Hc). pose proof (wf_para_inert c body more Hw) as Hi.
+    destruct (inert_para_core _ Hi) as ((H92 & _) & Hamp & _ & H10).
+    rewrite para_pre. cbn [build tok_of].
+    pose proof (strip_lines (c :: body) more PL Hc) as E.
     match goal with |- context [strip ?x] => replace (strip x) with (join [10] ((c :: body) :: more)) by (symmetry; exact E) end. unfold inline.
-    rewrite (tokenize_inner_spans span_types fn ((c :: body) :: more) Hquiet); [reflexivity|discriminate|].
-    constructor; [apply line_ok_of_plain; exact PL|]. apply Forall_forall. intros x Hx. rewrite Forall_forall in Hc. apply line_ok_of_plain. apply (Hc x Hx).
+    rewrite Hfn.
+    rewrite (tokenize_inner_lines span_types [] ((c :: body) :: more)); [reflexivity|discriminate| |apply srcs_inert_static; assumption].
+    assert (Hbl : Forall block_line ((c :: body) :: more)) by (constructor; [exact PL|apply Forall_forall; intros x Hx; rewrite Forall_forall in Hc; apply (Hc x Hx)]).
+    apply Forall_forall. intros x Hx. rewrite Forall_forall in Hbl, H10. destruct (Hbl x Hx) as (_ & _ & Hne & Hl).
+    split; [apply H10; exact Hx|]. split; [apply (mem_join_line 92 ((c :: body) :: more)); assumption|]. split; [apply (amp_ok_join_line ((c :: body) :: more)); assumption|].
+    split; [exact Hne|]. intros E32. rewrite E32 in Hl. vm_compute in Hl. discriminate.
   Qed.
 
   Lemma build_head lv c body ln : wf_b (FHead lv c body) = true ->
@@ -741,18 +754,36 @@ Section Tokens.
 End Tokens.
 
 (* parse-after-write on the fragment, through the inline phase: the token tree is the tree the text was written from *)
-Theorem fragment_token_tree types span_types keep fn t f ln st :
-  fragment_config types = true -> prose_spans span_types = true -> emph_spans span_types = true -> wf_b t = true -> (depth t <= f)%nat ->
-  make_tokens span_types keep fn (fst (fst (tokenize_block types (S f) (text_of (spell t)) ln st))) = [tok_of false t].
+Theorem fragment_token_tree types span_types keep t f ln st :
+  fragment_config types = true -> prose_spans span_types = true -> emph_spans span_types = true -> inert_spans span_types = true ->
+  wf_b t = true -> (depth t <= f)%nat ->
+  make_tokens span_types keep [] (fst (fst (tokenize_block types (S f) (text_of (spell t)) ln st))) = [tok_of false t].
 Proof.
-  intros Hc Hq He Hw Hd. rewrite fragment_tree_cfg by assumption. cbn [fst]. unfold make_tokens. cbn [flat_map].
-  rewrite (build_fragment span_types keep fn false Hq He f t ln Hd Hw). reflexivity.
+  intros Hc Hq He Hi Hw Hd. rewrite fragment_tree_cfg by assumption. cbn [fst]. unfold make_tokens. cbn [flat_map].
+  rewrite (build_fragment span_types keep [] false Hq He Hi eq_refl f t ln Hd Hw). reflexivity.
 Qed.
 
-Theorem fragment_token_tree_markdown span_types keep fn t f ln st :
-  prose_spans span_types = true -> emph_spans span_types = true -> wf_b t = true -> (depth t <= f)%nat ->
-  make_tokens span_types keep fn (fst (fst (tokenize_block block_types_markdown (S f) (text_of (spell t)) ln st))) = [tok_of true t].
+Theorem fragment_token_tree_markdown span_types keep t f ln st :
+  prose_spans span_types = true -> emph_spans span_types = true -> inert_spans span_types = true -> wf_b t = true -> (depth t <= f)%nat ->
+  make_tokens span_types keep [] (fst (fst (tokenize_block block_types_markdown (S f) (text_of (spell t)) ln st))) = [tok_of true t].
 Proof.
-  intros Hq He Hw Hd. rewrite fragment_tree_markdown by assumption. cbn [fst]. unfold make_tokens. cbn [flat_map].
-  rewrite (build_fragment span_types keep fn true Hq He f t ln Hd Hw). reflexivity.
+  intros Hq He Hi Hw Hd. rewrite fragment_tree_markdown by assumption. cbn [fst]. unfold make_tokens. cbn [flat_map].
+  rewrite (build_fragment span_types keep [] true Hq He Hi eq_refl f t ln Hd Hw). reflexivity.
 Qed.
+
+(* the trees of the fragment define no link reference *)
+Lemma defs_of_fragment md : forall f t ln, (depth t <= f)%nat -> defs_of (pre_of md ln t) = [].
+Proof.
+  induction f as [|f IH]; intros t ln Hd.
+  - destruct t; try reflexivity; cbn [depth] in Hd; lia.
+  - assert (Kids : forall ts ln, Forall (fun t => (depth t <= f)%nat) ts -> flat_map defs_of (pre_seq md ln ts) = []).
+    { induction ts as [|t0 r IHr]; intros ln0 Hds; [reflexivity|]. inversion Hds; subst.
+      cbn [pre_seq flat_map]. rewrite (IH t0 ln0) by assumption. cbn [app].
+      destruct r as [|t1 r']; [reflexivity|]. rewrite flat_map_app, IHr by assumption. unfold blank_entry. destruct md; reflexivity. }
+    destruct t as [c body more|ch n content|ts|mk pad ts|lv hc hb|rc rn|e0 epre ech edbl ew epost]; try reflexivity.
+    + rewrite pre_of_quote. cbn [defs_of]. apply Kids. apply children_depth. cbn [depth] in Hd. exact Hd.
+    + rewrite pre_of_item. cbn [defs_of flat_map]. rewrite app_nil_r. apply Kids. apply children_depth. cbn [depth] in Hd. exact Hd.
+Qed.
+
+Lemma footnotes_of_fragment md t ln : footnotes_of [pre_of md ln t] = [].
+Proof. unfold footnotes_of. cbn [flat_map]. rewrite app_nil_r, (defs_of_fragment md (depth t) t ln (le_n _)). reflexivity. Qed.
